@@ -71,7 +71,7 @@ def oracle(line: str, obs: Obs):
 def scenarios(rng: random.Random, n: int, depth: int) -> list[str]:
     out = []
     for i in range(n):
-        cfg = rng.choice(list(nodegen.CONFIGS))
+        cfg = rng.choice(list(nodegen.CONFIGS)) if rng.random() < 0.7 else nodegen.random_config(rng)
         out.append(nodegen.random_scenario(rng, cfg, depth, unique=True, handshake=0.7))
     # two connections of one peer, both handshaken: every request kind on the peer's current and on its extra connection
     h = [40000]
